@@ -972,4 +972,8 @@ def run(P, R, tier):
     # skipped - "the file looks unchanged" - reports nothing about a file that is broken)
     from . import c17 as _c17
     _c17.wiring(P, Remap(R, {'C17.WIRE.1': 'C14.WIRE.1'}, keys=('sigusr1-reload', 'sigusr1-armed')))
+    # shared (round 9): a second and third reload request are served like the first (the signal event is persistent)
+    from ..report import Remap as _Remap
+    from . import c17 as _c17
+    _c17.wiring(P, _Remap(R, {'C17.WIRE.1': 'C14.WIRE.2'}, keys=('sigusr1',)))
     return EXPLANATION, ASSUMPTIONS
